@@ -9,9 +9,10 @@ import math, re, sys
 from fractions import Fraction as F
 
 PROP = 'C20'
-LEAN_MODULES = ['XyzProofs.Props.C20']
+LEAN_MODULES = ['XyzProofs.Props.C20', 'XyzProofs.Lemmas.FmtTotal']
 THEOREMS = ['Fmt.c20_round_spec', 'Fmt.c20_sci_spec', 'Fmt.c20_fixed_spec', 'Fmt.c20_E_le_one',
-            'Fmt.c20_uncertainty', 'Fmt.c20_value', 'Fmt.c20_reads_back']
+            'Fmt.c20_uncertainty', 'Fmt.c20_value', 'Fmt.c20_reads_back', 'Fmt.c20_sci_total', 'Fmt.c20_floorLog10',
+            'Fmt.c20_format_total']
 ANCHORS = ['fmtExp', 'fmtHide', 'fmtDigits']
 PARTIAL = {}
 RULE = ("each case = one (x, err) pair of binary64 floats: x of either sign with |x| in [1e-300, 1e300] or 0, err > 0 finite "
